@@ -45,6 +45,7 @@ def load_engine(prop):
 
 
 def _init_worker(prop, tier, seed):
+    kernel.die_with_parent()
     eng = load_engine(prop)
     eng.preload(prop)
     _W.update(engine=eng, prop=prop, tier=tier, seed=seed, findings=Findings())
@@ -213,6 +214,10 @@ def run_check(prop, tier, seed, workers=None, runs_override=None, quiet=False):
                 harness_errors.extend(agg["harness_errors"])
                 digests.update(agg["digests"])
                 samples.extend(agg["samples"])
+                if harness_errors:
+                    for i, e in harness_errors[:3]:
+                        print("harness error in run %s:\n%s" % (i, e))
+                    return harness_fail("%d runs failed inside the harness" % len(harness_errors))
             ver = {}
             for fu in vfuts:
                 ver.update(fu.result(timeout=max(1, deadline - time.time())))
